@@ -8,8 +8,11 @@ python3 tools/gen_wiring.py
 (cd lean && lake build AsModel driver)
 for h in harness/*/; do
   if [ -f "$h/Cargo.toml" ] && [ ! -f "$h/.nobuild" ]; then
+    # the in-process harness compiles the macro crate's own sources: copy them in first (never committed)
+    [ -x "$h/sync.sh" ] && "$h/sync.sh"
     [ -f "$h/Cargo.lock" ] || cp /repo/Cargo.lock "$h/Cargo.lock"
-    (cd "$h" && cargo build --release --offline)
+    # a harness that does not build against the current tree is reported by the checks (corr:*-harness-build), not here
+    (cd "$h" && cargo build --release --offline) || echo "setup: $h did not build; the checks will report it"
   fi
 done
 echo setup-ok
